@@ -238,12 +238,22 @@ def c15_6(ctx):
     # RS1024 generator and shape
     mod, fn = rl.get(ctx, "shamir:rs1024_polymod")
     gen = None
+    cands = []
     for st in ast.walk(fn):
-        if isinstance(st, ast.Assign) and isinstance(st.targets[0], ast.Name) and st.targets[0].id == "GEN":
-            gen = f.fold(st.value)
+        # the generator table: a local or module-level sequence of ten integers used by the function
+        e = st.value if isinstance(st, ast.Assign) else (st if isinstance(st, ast.Name) and isinstance(st.ctx, ast.Load) else None)
+        if e is None:
+            continue
+        v = f.fold(e)
+        if isinstance(v, (tuple, list)) and len(v) == 10 and all(isinstance(x, int) for x in v):
+            cands.append(list(v))
     ctx.count("table_entries", 10)
-    out.append(ctx.ok("shamir:rs1024_polymod", "generator equals SLIP-0039", fn, mod, key="rs1024-gen") if gen == RS1024_GEN else
-               ctx.bad("shamir:rs1024_polymod", "generator %s differs from SLIP-0039" % ([hex(x) for x in gen] if gen else None), fn, mod, key="rs1024-gen"))
+    if cands:
+        gen = cands[0]
+        out.append(ctx.ok("shamir:rs1024_polymod", "generator equals SLIP-0039", fn, mod, key="rs1024-gen") if list(gen) == list(RS1024_GEN) else
+                   ctx.bad("shamir:rs1024_polymod", "generator %s differs from SLIP-0039" % [hex(x) for x in gen], fn, mod, key="rs1024-gen"))
+    else:
+        out.append(ctx.err("shamir:rs1024_polymod", "the ten-entry generator table was not found", fn, mod))
     consts = {c.value for c in ast.walk(fn) if isinstance(c, ast.Constant) and isinstance(c.value, int)}
     if {20, 0xFFFFF, 10, 1} <= consts:
         out.append(ctx.ok("shamir:rs1024_polymod", "shift 20, mask 0xfffff, 10-bit symbols, 10 taps", fn, mod, key="rs1024-shape"))
